@@ -15,12 +15,14 @@ RULE = ("margin (L1, real SifchainApp, real margin+clp keepers and message serve
         "twice), Close (owner, outsider, unknown id), AdminClose/ForceClose (administrator and non-administrators, with/without fund cut), "
         "BeginBlocker every block (epoch boundaries with interest, liquidations), real clp Swap/AddLiquidity/RemoveLiquidity moving the "
         "price by up to 60% of depth, administrator parameter changes (including fund addresses set to a module account, safety factor "
-        "100, either or both fund addresses left out of MsgUpdateParams = stored empty, fund percentages 0/0.1/0.5/1, all while positions "
-        "are open; the message is encoded, decoded, ValidateBasic'ed and sent through the message server), plus 10 directed histories per "
+        "1.5/2/10/100, the real MsgAdminCloseAll with and without the fund cut, either or both fund addresses left out of MsgUpdateParams = stored empty, fund percentages 0/0.1/0.5/1, all while positions "
+        "are open; the message is encoded, decoded, ValidateBasic'ed and sent through the message server), plus 11 directed histories per "
         "run (the configurations of F14/F14b/F14c; all ten pools at once with positions on both sides of each, two epoch hooks, every "
         "position closed; safety factor exactly 0 with positions pushed below health 1.05 and 1 by a swap, then 10^-18, 1, 1.05, 100 at "
         "successive epoch hooks; two positions of opposite direction in one 10^24/10^24 pool, the earlier (address order) large and under "
-        "water, the later 15x and below the safety factor before the hook but above it at its turn; interest fund address empty: hook, mid-epoch Close, AdminClose; force-close fund address empty: AdminClose "
+        "water, the later 15x and below the safety factor before the hook but above it at its turn; four healthy positions per pool on both "
+        "collateral sides, then the real MsgAdminCloseAll with the fund cut (safety factor 100) and MsgUpdateParams to 2 and 10: the hook "
+        "liquidates positions that still have value, collateral and fund share leave the module; interest fund address empty: hook, mid-epoch Close, AdminClose; force-close fund address empty: AdminClose "
         "with/without fund cut, liquidation).  After every operation: full state dump compared "
         "with the model (pools: 13 fields, positions: 13 fields, counters, 7 accounts x 3 denoms) and MarginOK judged on the "
         "implementation's dump per pool with exact symbol matching, and the backing identity of C01 restricted to this world (c01.marginbacking: for every "
